@@ -11,21 +11,22 @@ Proved for every payload, every split into Write calls (no bound on sizes):
   * `xerial_roundtrip_partial`  decoding the blocks that the REFERENCE reader (`Spec.parse`) finds in the
                                 writer's output gives back the payload
   * `xerial_unframed_single`    unframed mode emits exactly one block: `enc payload`
+  * `pool_inv`, `pool_no_sharing`, `close_idempotent`   pool protocol over all op sequences incl. repeated Close;
+                                `double_close_counterexample` for a Close that keeps its object (seeded C16-m2)
   * `reset_fresh`               a recycled reader/writer starts from the same state as a new one, whatever it
                                 processed before (also after a stream that ended in an error)
-Partial (kept as comment, checked by correspondence `xr`/`rt`/`in` against the real reader):
-
-  theorem xerial_roundtrip : ∀ payload ≠ [], ∀ split chunks of payload, ∀ read buffer sizes ks (all ≥ 1),
-      the bytes returned by the reader model's `read` calls on (writer output) concatenate to payload
-  theorem reads_reference_streams : ∀ blocks, (∀ b, dec (enc b) = some b) →
-      drain (newReader (Spec.frame (blocks.map enc))) = some blocks.flatten
-      ∧ (enc p does not start with the magic → drain (newReader (enc p)) = some p)
-
-  The reader model is executable and is compared with the real `xerialReader` on the Read-size sequences for
-  random buffer sizes (`xr`), see the concrete `example`s below for the model itself.
+  * `reads_reference_streams`   the READER model, for ANY Read buffer sizes (each ≥ 1; the consumer reads until
+                                EOF): a Spec-framed stream of encoded non-empty blocks is returned as their
+                                concatenation; an unframed block (not starting with the magic) as its payload
+  * `xerial_roundtrip`          writer → reader: for every non-empty payload, every split into Write calls, every
+                                sequence of Read buffer sizes, framed and unframed: the payload comes back
+  (the reader model is also compared with the real `xerialReader` on Read-size sequences: ops `xr`, `rt`, `in`)
 gzip / lz4 / zstd: the wrappers only pool and Reset library objects — correspondence only.
 -/
 import KafkaVerif.Lemmas.Xerial
+import KafkaVerif.Lemmas.Pool
+import KafkaVerif.Lemmas.XerialReader
+import KafkaVerif.Gen.RecordConsts
 
 namespace KV.Props.C16
 open KV KV.RW KV.Model.Xerial KV.Spec.Xerial
@@ -75,7 +76,7 @@ theorem xerial_blocks_bounded (c : Codec) (chunks : List Bytes) :
 /-- framed: the output is the Spec framing of the encoded blocks — header once, 4-byte big-endian lengths —
 and the reference parser accepts it and finds exactly those blocks -/
 theorem xerial_spec_readable (c : Codec) (chunks : List Bytes) (hne : chunks.flatten ≠ [])
-    (henc : ∀ b, (c.enc b).length < 256 ^ 4) :
+    (henc : ∀ b, b.length ≤ 32768 → (c.enc b).length < 256 ^ 4) :
     let w := close c (writeAll c (newWriter true) chunks)
     w.out = frame (w.blocks.map c.enc) ∧ parse w.out = some (w.blocks.map c.enc) := by
   have hinv := closed_inv c chunks
@@ -93,8 +94,8 @@ theorem xerial_spec_readable (c : Codec) (chunks : List Bytes) (hne : chunks.fla
   apply parse_frame
   intro b hb
   simp only [List.mem_map] at hb
-  obtain ⟨x, _, rfl⟩ := hb
-  exact henc x
+  obtain ⟨x, hx, rfl⟩ := hb
+  exact henc x (xerial_blocks_bounded c chunks x hx).2
 
 def decodeAll (c : Codec) : List Bytes → Option Bytes
   | [] => some []
@@ -112,13 +113,51 @@ theorem decodeAll_map_enc (c : Codec) (hdec : ∀ b, c.dec (c.enc b) = some b) (
 /-- round trip through the REFERENCE reader: parse the writer's output with the Spec, decode each block:
 the payload comes back, for every split into Write calls -/
 theorem xerial_roundtrip_partial (c : Codec) (hdec : ∀ b, c.dec (c.enc b) = some b)
-    (henc : ∀ b, (c.enc b).length < 256 ^ 4) (chunks : List Bytes) (hne : chunks.flatten ≠ []) :
+    (henc : ∀ b, b.length ≤ 32768 → (c.enc b).length < 256 ^ 4) (chunks : List Bytes) (hne : chunks.flatten ≠ []) :
     (parse (close c (writeAll c (newWriter true) chunks)).out).bind (decodeAll c) = some chunks.flatten := by
   have h := xerial_spec_readable c chunks hne henc
   simp only at h
   rw [h.2]
   simp only [Option.bind]
   rw [decodeAll_map_enc c hdec, xerial_writer_conserves]
+
+/-- READER, framed reference streams: any buffer sizes ≥ 1, enough calls to reach EOF (one more than the
+number of bytes always suffices, since every call returns at least one byte) -/
+theorem reads_reference_streams (c : Codec) (hg : Good c) (blocks : List Bytes)
+    (hne : ∀ b ∈ blocks, b ≠ [] ∧ (c.enc b).length < 256 ^ 4)
+    (ks : List Nat) (hks : ∀ k ∈ ks, 1 ≤ k) (hlen : blocks.flatten.length < ks.length) :
+    readAllWith c (newReader (frame (blocks.map c.enc))) ks = some blocks.flatten := by
+  have hrep : Rep c (newReader (frame (blocks.map c.enc))) [] blocks :=
+    Rep.startFramed _ _ rfl rfl (by simp [newReader])
+  have := readAllWith_rep c hg ks _ [] blocks hks (by simpa using hlen) hne hrep
+  simpa using this
+
+/-- READER, unframed reference stream: one raw block.  Hypothesis: no extension of the block starts with the
+8 magic bytes (otherwise the FORMAT cannot tell it from a framed stream; a snappy block starting 0x82 0x53 …
+would have to announce a decoded length ≡ 0x2982 (mod 2^14) and continue with "NAPPY\0") -/
+theorem reads_reference_unframed (c : Codec) (hg : Good c) (p : Bytes) (hp : p ≠ []) (henc : c.enc p ≠ [])
+    (hsm : (c.enc p).length < 256 ^ 4)
+    (hmag : ∀ t, (c.enc p ++ t).take 8 ≠ magic)
+    (ks : List Nat) (hks : ∀ k ∈ ks, 1 ≤ k) (hlen : p.length < ks.length) :
+    readAllWith c (newReader (c.enc p)) ks = some p := by
+  have hrep : Rep c (newReader (c.enc p)) [] [p] :=
+    Rep.startUnframed _ _ rfl rfl henc hmag (by simp [newReader])
+  have := readAllWith_rep c hg ks _ [] [p] hks (by simpa using hlen) (by simpa using ⟨hp, hsm⟩) hrep
+  simpa using this
+
+/-- FULL round trip, framed: every non-empty payload, every split into Write calls, every sequence of Read
+buffer sizes: what the reader returns is the payload -/
+theorem xerial_roundtrip (c : Codec) (hg : Good c) (henc : ∀ b, b.length ≤ 32768 → (c.enc b).length < 256 ^ 4)
+    (chunks : List Bytes) (hne : chunks.flatten ≠ [])
+    (ks : List Nat) (hks : ∀ k ∈ ks, 1 ≤ k) (hlen : chunks.flatten.length < ks.length) :
+    readAllWith c (newReader (close c (writeAll c (newWriter true) chunks)).out) ks = some chunks.flatten := by
+  have h := xerial_spec_readable c chunks hne henc
+  simp only at h
+  rw [h.1]
+  have hb := xerial_blocks_bounded c chunks
+  have hc := xerial_writer_conserves c chunks
+  have := reads_reference_streams c hg _ (fun b hb' => ⟨(hb b hb').1, henc b (hb b hb').2⟩) ks hks (by rw [hc]; exact hlen)
+  rw [this, hc]
 
 /-- unframed writes only accumulate; Close emits one block holding everything -/
 theorem writeAll_unframed (c : Codec) (chunks : List Bytes) (w : Writer) (hf : w.framed = false) :
@@ -140,16 +179,86 @@ theorem xerial_unframed_single (c : Codec) (chunks : List Bytes) (hne : chunks.f
   rw [writeAll_unframed c chunks _ rfl]
   simp [close, flush, newWriter, hne]
 
+/-- FULL round trip, unframed -/
+theorem xerial_roundtrip_unframed (c : Codec) (hg : Good c) (chunks : List Bytes) (hne : chunks.flatten ≠ [])
+    (henc : c.enc chunks.flatten ≠ []) (hsm : (c.enc chunks.flatten).length < 256 ^ 4) (hmag : ∀ t, (c.enc chunks.flatten ++ t).take 8 ≠ magic)
+    (ks : List Nat) (hks : ∀ k ∈ ks, 1 ≤ k) (hlen : chunks.flatten.length < ks.length) :
+    readAllWith c (newReader (close c (writeAll c (newWriter false) chunks)).out) ks = some chunks.flatten := by
+  rw [xerial_unframed_single c chunks hne]
+  exact reads_reference_unframed c hg _ hne henc hsm hmag ks hks hlen
+
 /-- pool protocol: `NewReader`/`NewWriter` = Get + Reset, `Close` = Flush + Reset(nil) + Put.  Whatever state
 the recycled object was left in (mid-stream, after an error, after EOF), Reset gives the state of a new one. -/
 theorem reset_fresh (s : Bytes) (framed : Bool) (r : Reader) (w : Writer) :
     resetReader s r = newReader s ∧ resetWriter framed w = newWriter framed := ⟨rfl, rfl⟩
 
+/-- the model's block capacity and flush threshold are the constants in compress/snappy/xerial.go now
+(regenerated by `go/extract records` on every run) -/
+theorem gen_xerial_consts :
+    blockCap = Gen.RecordConsts.xerialBlockSize ∧ slack = Gen.RecordConsts.xerialSlack := ⟨rfl, rfl⟩
+
+/-! ## pool protocol (all codecs): acquire → Reset → use → Close (idempotent) → Put -/
+
+open Model.Pool in
+/-- after EVERY sequence of NewReader/NewWriter, Close (also repeated Close of the same wrapper) and pool drops:
+no object is in the pool twice, none is in the pool while a live wrapper uses it, none is used by two wrappers -/
+theorem pool_inv (es : List PEv) (s : PState) (hf : faithful es = true) (h : run Model.Pool.init es = some s) : Inv s :=
+  inv_run es _ s hf inv_init h
+
+open Model.Pool in
+/-- two writers/readers that are open at the same time never share an object; the pool holds no duplicates and
+nothing that is in use -/
+theorem pool_no_sharing (es : List PEv) (s : PState) (hf : faithful es = true) (h : run Model.Pool.init es = some s) :
+    (live s).Nodup ∧ s.pool.Nodup ∧ ∀ x ∈ s.pool, x ∉ live s := by
+  have hi := pool_inv es s hf h
+  refine ⟨List.nodup_iff_count.mpr fun x => ?_, List.nodup_iff_count.mpr fun x => ?_, fun x hx hl => ?_⟩
+  · have := (hi x).1; unfold occ at this; omega
+  · have := (hi x).1; unfold occ at this; omega
+  · have := (hi x).1
+    have h1 : 0 < s.pool.count x := List.count_pos_iff.mpr hx
+    have h2 : 0 < (live s).count x := List.count_pos_iff.mpr hl
+    unfold occ at this; omega
+
+open Model.Pool in
+/-- `Close` is idempotent: closing a wrapper again changes nothing -/
+theorem close_idempotent (s s1 : PState) (h : Nat) (h1 : step s (.close h) = some s1) :
+    step s1 (.close h) = some s1 := by
+  simp only [step] at h1 ⊢
+  cases hg : s.handles[h]? with
+  | none => simp [hg] at h1
+  | some o =>
+    cases o with
+    | none => simp only [hg, Option.some.injEq] at h1; subst h1; simp [hg]
+    | some x =>
+      simp only [hg, Option.some.injEq] at h1; subst h1
+      have hlt : h < s.handles.length := by
+        cases Nat.lt_or_ge h s.handles.length with
+        | inl a => exact a
+        | inr b => simp [List.getElem?_eq_none b] at hg
+      have : (s.handles.set h none)[h]? = some none := by simp [List.getElem?_set, hlt]
+      simp only [this]
+
+open Model.Pool in
+/-- the seeded defect C16-m2: a Close that does not forget its object makes a second Close put the object into
+the pool twice; two writers opened next share it -/
+theorem double_close_counterexample :
+    ∃ s, run Model.Pool.init [.acquire none, .closeKeep 0, .closeKeep 0, .acquire (some 0), .acquire (some 0)] = some s
+      ∧ ¬ (live s).Nodup := by
+  refine ⟨_, rfl, ?_⟩
+  decide
+
+open Model.Pool in
+example : ∃ s, run Model.Pool.init [.acquire none, .close 0, .close 0, .acquire (some 0), .acquire none] = some s
+    ∧ (live s).Nodup := ⟨_, rfl, by decide⟩
+
 /-! hypotheses are satisfiable (identity block codec), and the reader model on concrete reference streams -/
 
 def idCodec : Codec := ⟨id, some, fun b => some b.length⟩
 
-example : (∀ b, idCodec.dec (idCodec.enc b) = some b) := fun _ => rfl
+example : Good idCodec := ⟨fun _ => rfl, fun _ => rfl⟩
+example : ∀ b : Bytes, b.length ≤ 32768 → (idCodec.enc b).length < 256 ^ 4 := fun b h => by
+  show b.length < 256 ^ 4
+  omega
 
 example : drain idCodec 5 (newReader (frame [[1, 2], [3]])) = some [1, 2, 3] := by decide
 example : drain idCodec 5 (newReader [9, 8, 7]) = some [9, 8, 7] := by decide
